@@ -44,7 +44,7 @@ type Probe struct {
 func loadCorpus() ([]*Snip, error) {
 	var out []*Snip
 	seen := map[string]bool{}
-	for _, f := range []string{"snippets.json", "sentences.json"} {
+	for _, f := range []string{"snippets.json", "extra.json", "sentences.json"} {
 		b, err := os.ReadFile(filepath.Join(verifDir, "corpus", f))
 		if err != nil {
 			return nil, err
@@ -54,7 +54,8 @@ func loadCorpus() ([]*Snip, error) {
 			return nil, err
 		}
 		for _, s := range part {
-			if seen[s.Src] {
+			if seen[s.Src] || strings.IndexByte(s.Src, 0) >= 0 {
+				// (a NUL byte is the segment separator of the template encoding)
 				continue
 			}
 			seen[s.Src] = true
@@ -200,6 +201,10 @@ func triviaGaps(src string, p *Probe, ids *tokIDs) []Gap {
 		if haltHead {
 			g.Ctx = "halt-compiler-head"
 		}
+		if prevID == int(';') && next == int(';') && to+1 < len(src) && src[to] == '?' && src[to+1] == '>' {
+			// "; ?>" is one token for this lexer, "; /* c */ ?>" two
+			g.Ctx = "semicolon-close-tag"
+		}
 		if lastEnd > 0 {
 			g.PrevLast = src[lastEnd-1]
 		}
@@ -236,6 +241,7 @@ func triviaGaps(src string, p *Probe, ids *tokIDs) []Gap {
 			haltHead = true
 		case haltHead && t.ID == int(';'):
 			haltHead = false
+			afterHalt = true // what follows is data, not code
 		case t.ID == ids.id("T_INLINE_HTML"):
 			html = true
 		case t.ID == int('"'):
